@@ -203,7 +203,7 @@ func forgedMultiOffenders(rng *rand.Rand) []*Target {
 	elemBudget := map[string]int{}
 	elemMax := 2
 	if tier == "thorough" {
-		elemMax = 10
+		elemMax = 5
 	}
 	// ---- the generic duplicate-and-vary recipes
 	stride := 6
